@@ -740,7 +740,7 @@ for _n, _v in RSS_MEASURED.items():
         HARNESSES[_n]["mem_gb"] = _v + 6
 
 QUICK = {
-    "C01": ["kd4_build_bl_tree_announces_every_used_length", "kd3_fizzle_matches_long_next", "kd3_tail_medium", "kd9_fill_window_slide_keeps_deferred_match", "kd9_slide_hash_chain", "kd4_gen_codes_n5", "kd4_build_tree_bl_k3", "kd5_send_tree_n4", "kd8_quick_finish_n1", "kd8_quick_finish_n3", "kd2_static_encode_matches_rfc", "ki5d_fixed_tables_are_rfc",
+    "C01": ["kd6_stored_window_holds_the_latest_input", "kd4_build_bl_tree_announces_every_used_length", "kd3_fizzle_matches_long_next", "kd3_tail_medium", "kd9_fill_window_slide_keeps_deferred_match", "kd9_slide_hash_chain", "kd4_gen_codes_n5", "kd4_build_tree_bl_k3", "kd5_send_tree_n4", "kd8_quick_finish_n1", "kd8_quick_finish_n3", "kd2_static_encode_matches_rfc", "ki5d_fixed_tables_are_rfc",
             "kd1_emitters_one_step", "ki5c_stored", "kd10_reset_equals_fresh"],
     "C02": ["ki1_bitreader_refill_model", "ki2_copy_match_twin_small", "ki2_extend_from_window_twin", "ki3_window_extend_ring",
             "ki5b_extra", "ki5b_name_entry_length", "ki5b_comment_entry_length", "ki5b_name", "ki5c_stored", "ki5d_len_step", "ki6_fast_loop_room", "ki7_inflate_copyblock",
@@ -762,7 +762,7 @@ QUICK = {
             "kc9_crc_combine_len0_1_2", "kc9_multmodp_identity", "kc9_adler_len_0_1_2_3"],
     "C10": ["kd10c_symbuf_clone_to", "ki2_copy_match_twin_small", "ki2_extend_from_window_twin", "ki3_window_extend_ring", "kd10_reset_equals_fresh",
             "ki8_reset_equals_fresh"],
-    "C11": ["kd3_tail_slow", "kd3_tail_fast", "kd3_tail_huff", "kd7_starved_flush_is_completed_by_the_next_call", "kd7_zlib_wrapper", "kd8_quick_sync_n3", "kd1_emitters_one_step"],
+    "C11": ["kd6_stored_flush_tail_k3", "kd3_tail_slow", "kd3_tail_fast", "kd3_tail_huff", "kd7_starved_flush_is_completed_by_the_next_call", "kd7_zlib_wrapper", "kd8_quick_sync_n3", "kd1_emitters_one_step"],
     "C13": ["ki8_reset_keep_forgets_the_stream", "ki5a_head_w1_n2", "ki5a_head_w5_n2", "ki5a_dictid_n3", "ki5a_dictid_n4", "ki5a_dictid_n4_have", "ki5a_set_dictionary", "ki3_get_dictionary_order", "kd7_zlib_wrapper", "kd10_set_dictionary_protocol"],
     "C14": ["ki8_copy_refuses_a_borrowed_window", "ki8_reset_forgets_header_window_bits", "kd10_reset_equals_fresh", "ki8_reset_equals_fresh", "ka2_deflate_copy_alloc_failure", "kd10c_pending_clone_to",
             "kd10c_symbuf_clone_to", "ki8c_window_clone_to", "kd7_gzip_start_stale_gzindex"],
